@@ -212,9 +212,9 @@ def round_tt(tt_cores,R,eps,Rmax,is_ttm=False):
         
         U, S, V = SVD(core_now)
         if S.is_cuda:
-            r_now = min([Rmax[i],rank_chop(S.cpu().numpy(),tn.linalg.norm(S).cpu().numpy()*eps)])
+            r_now = min([Rmax[i],rank_chop(S.cpu().numpy(),_norm2(S).cpu().numpy()*eps)])
         else:
-            r_now = min([Rmax[i],rank_chop(S.numpy(),tn.linalg.norm(S).numpy()*eps)])
+            r_now = min([Rmax[i],rank_chop(S.numpy(),_norm2(S).numpy()*eps)])
     
         U = U[:,:r_now]
         S = S[:r_now]
@@ -291,6 +291,13 @@ def mat_to_tt(A,M,N,eps,rmax = 1000,is_sparse=False):
 
     return cores, R
 
+def _norm2(s):
+    """
+    2-norm of a vector of singular values computed on the entries divided by the largest one (no underflow / overflow of the squares).
+    """
+    m = tn.max(tn.abs(s)) if s.numel() > 0 else tn.zeros([], dtype = s.dtype, device = s.device)
+    return m*tn.linalg.norm(s/m) if m > 0 else m
+
 def rank_chop(s,eps):
     """
     Chop the rank.
@@ -307,12 +314,18 @@ def rank_chop(s,eps):
     R : int
         Rank.
     """
-    if np.linalg.norm(s) == 0.0:
+    # work on the singular values relative to the largest one (in double precision): their squares neither underflow
+    # nor overflow, whatever the overall scale of the data
+    s = np.abs(np.asarray(s, dtype=np.float64))
+    smax = s.max() if s.size > 0 else 0.0
+    if smax == 0.0:
         return 1
     
     if eps <= 0.0:
         return s.size
     
+    s = s/smax
+    eps = float(eps)/smax
     R = s.size - 1
    
     sc = np.cumsum(np.abs(s[::-1])**2)[::-1]
@@ -387,7 +400,7 @@ def to_tt(A,N=None,eps=1e-14,rmax=100,is_sparse=False):
       
         # tme = datetime.datetime.now()
         # choose the rank according to eps tolerance
-        r1 = rank_chop(s.cpu().numpy(), ep*tn.linalg.norm(s).cpu().numpy())
+        r1 = rank_chop(s.cpu().numpy(), ep*_norm2(s).cpu().numpy())
         r1 = min([r1,rmax[i+1]])
         
         u = u[:,:r1]
